@@ -1,6 +1,7 @@
 import Moclo.Props.C01
 import Moclo.Tables.Kits
 import Moclo.Proofs.YtkPair
+import Moclo.Proofs.CiteRoundTrip
 /-!
 # C11 — products of one level are valid modules of the next level
 
@@ -179,5 +180,14 @@ theorem ytk_pair {text : Word} {ms : List Nat} {e : Nat} (h : Run ytkProductPat 
         ∀ r, C02.report { kind := .module, pat := moduleStructure bsaI, geom := bsaI }
           (rotr (S ++ x ++ o5 ++ t ++ o3 ++ y ++ S' ++ (B ++ n12)) r) = .ok (o5, o3, o5 ++ t, o5 ++ t)) :=
   Moclo.ytk_pair h upv B hup
+
+/-- **a product is a well-formed input of the next assembly as far as its citations go**: the first thing
+`assemble` does with each input is to dereference its `/citation` numbers against its reference list, and an
+input on which that fails ends the call with an internal error; on the product of any successful assembly it
+succeeds — whatever the number of papers the inputs cited together -/
+theorem product_enters_next_level {v : Ent} {mods : List Ent} {pid pname : Nat} {p : Product} {after : List Rec}
+    (h : assemble v mods pid pname = (.ok p, after)) : (derefRec p.rcd).isSome := by
+  obtain ⟨pre, _, _, hd⟩ := product_derefs h
+  rw [hd]; rfl
 
 end Moclo.C11
